@@ -236,7 +236,7 @@ MUTANTS = [
     {"what": "unfixed tree before 47c9042 (constant-invalid template aborts the run)", "caught": True, "how": "regress/C01 replay"},
 ]
 MANIFEST = {
-    "level_text": "For generated tiny single-Einsum specs the documented mapspace is enumerated completely (storage subsets x storage orders x ordered factorisations of every rank bound), every member is evaluated by evaluate_mapping, and the mapper's best objective must equal the universe optimum in both directions (metrics ENERGY, LATENCY, EDP). Complete inside each enumerated universe; the spec family itself is sampled. Not a proof.",
-    "level_note": "Trusted: universe rules R1,R2,R4 in vf/ref/mapspace.py (restating the documented mapspace) and evaluate_mapping as the objective (checked by C05/C06). Single-Einsum specs only: fused (multi-Einsum) universes are not enumerated; capacities are never an exact fit (open finding C08).",
+    "level_text": "For generated tiny single-Einsum specs the documented mapspace is enumerated completely (storage subsets x storage orders x ordered factorisations of every rank bound), every member is evaluated by evaluate_mapping, and the mapper's best objective must equal the universe optimum in both directions (metrics ENERGY, LATENCY, EDP). Complete inside each enumerated universe; the spec family itself is sampled. A second family checks fused two-Einsum specs one-directionally against a sub-universe of valid fused mappings (shared loops over the intermediate's rank variables, any branch per Einsum; optimum by decomposition over Einsums): the mapper must not be worse than any member. Not a proof.",
+    "level_note": "Trusted: universe rules R1,R2,R4 in vf/ref/mapspace.py (restating the documented mapspace) and evaluate_mapping as the objective (checked by C05/C06). Fused universes are a sub-universe only (the mapper may legitimately be better than every member); capacities are never an exact fit (open finding C08).",
     "technique": "property-based testing against an exhaustive brute-force reference (mapspace enumeration)",
 }
